@@ -415,6 +415,9 @@ Proof.
   destruct (edge_exists g (nkey sn) (nkey dn)) eqn:E; [reflexivity|reflexivity].
 Qed.
 
+Lemma ekey_inv e a b : ekey e = (a, b) -> esrc e = a /\ edst e = b.
+Proof. unfold ekey; intros H; split; congruence. Qed.
+
 Lemma ekey_mk_edge s d ty m : ekey (mk_edge s d ty m) = (nkey s, nkey d).
 Proof. reflexivity. Qed.
 
@@ -497,4 +500,34 @@ Proof.
   - intros e H; unfold edge_match.
     rewrite (find_edge_unique b e (wf_edges b Wb)); [|apply He, H].
     destruct (etype_eqb_spec (ety e) (ety e)); congruence.
+Qed.
+
+Lemma forallb2_spec (A : Type) (p : A -> A -> bool) (l : list A) :
+  forallb (fun a => forallb (p a) l) l = true <-> forall a b, In a l -> In b l -> p a b = true.
+Proof.
+  rewrite forallb_forall; split.
+  - intros H a b Ha Hb; specialize (H a Ha); rewrite forallb_forall in H; auto.
+  - intros H a Ha; apply forallb_forall; auto.
+Qed.
+Arguments forallb2_spec {A} p l.
+
+Theorem wf_b_spec g : wf_b g = true <-> wf g.
+Proof.
+  unfold wf_b; rewrite !andb_true_iff.
+  rewrite (nodup_by_spec key_eqb key_eqb_spec), (nodup_by_spec ekey_eqb ekey_eqb_spec).
+  rewrite (forallb2_spec (fun e1 e2 => negb (key_eqb (esrc e1) (edst e2) && key_eqb (edst e1) (esrc e2)))).
+  rewrite !forallb_forall. split.
+  - intros [[[[H1 H2] H3] H4] H5]; constructor; auto.
+    + intros e1 e2 I1 I2 E1 E2; specialize (H3 e1 e2 I1 I2).
+      rewrite E1, E2, !key_eqb_refl in H3; discriminate.
+    + intros e He; specialize (H4 e He); apply andb_true_iff in H4.
+      rewrite !node_exists_in in H4; exact H4.
+    + intros e He; apply Z.leb_le, H5, He.
+  - intros [W1 W2 W3 W4 W5]; repeat split; auto.
+    + intros e1 e2 I1 I2; apply negb_true_iff.
+      destruct (key_eqb_spec (esrc e1) (edst e2)) as [E1|]; [|reflexivity].
+      destruct (key_eqb_spec (edst e1) (esrc e2)) as [E2|]; [|reflexivity].
+      exfalso; exact (W3 e1 e2 I1 I2 E1 E2).
+    + intros e He; apply andb_true_iff; rewrite !node_exists_in; apply W4, He.
+    + intros e He; apply Z.leb_le, W5, He.
 Qed.
